@@ -73,7 +73,7 @@ def setup_paths(P, pre=()):
     return out
 
 
-def plain_eval(P, args, pre=(), off=False, executed=None, mode="letter"):
+def plain_eval(P, args, pre=(), off=False, executed=None, mode="letter", dbg=True):
     """Evaluate the body sequentially with plain callables. Returns the value; fills `executed`.
 
     off: the body of a deactivated nested DAG - only its setup call sites execute, all its outputs are None
@@ -95,6 +95,8 @@ def plain_eval(P, args, pre=(), off=False, executed=None, mode="letter"):
         pos = [res(r) for r in s["args"]]
         kws = {k["name"]: res(k["ref"]) for k in s["kw"]}
         act = True if s.get("setup") else (not off) and (s["active"]["c"] == "none" or bool(res(s["active"])))
+        if s.get("debug") and not dbg:
+            act = False         # RUN_DEBUG_NODES off: a debug call site does not run
         if s["kind"] == "sub":
             Q = P["subs"][s["sub"] - 1]
             if len(pos) > len(Q["params"]):
@@ -104,7 +106,7 @@ def plain_eval(P, args, pre=(), off=False, executed=None, mode="letter"):
                 if not Q["params"][p]["has"]:
                     raise TypeError("missing argument")
                 bound.append(decode(Q["params"][p]["v"]))
-            v = plain_eval(Q, bound, pre + (j,), off or not act, executed, mode)
+            v = plain_eval(Q, bound, pre + (j,), off or not act, executed, mode, dbg)
         else:
             if act:
                 executed[pre + (j,)] = executed.get(pre + (j,), 0) + 1
@@ -137,7 +139,7 @@ def plain_eval(P, args, pre=(), off=False, executed=None, mode="letter"):
             "dict": lambda: dict(zip(P["ret"]["keys"], outs)), "none": lambda: None}[shape]()
 
 
-def plain_call(P, given):
+def plain_call(P, given, dbg=True):
     if len(given) > len(P["params"]):
         return {"argerr": True}
     bound = list(given)
@@ -147,17 +149,17 @@ def plain_call(P, given):
         bound.append(decode(P["params"][p]["v"]))
     executed = {}
     try:
-        v = plain_eval(P, bound, (), False, executed)
+        v = plain_eval(P, bound, (), False, executed, dbg=dbg)
     except Exception as e:  # noqa: BLE001
         return {"err": True, "exc": repr(e)[:100]}
     exk = {}
     try:
-        vk = plain_eval(P, bound, (), False, exk, mode="keep")
+        vk = plain_eval(P, bound, (), False, exk, mode="keep", dbg=dbg)
         err_k = False
     except Exception:  # noqa: BLE001
         vk, err_k = None, True
     try:
-        plain_eval(P, bound, (), False, {}, mode="index")
+        plain_eval(P, bound, (), False, {}, mode="index", dbg=dbg)
         err_i = False
     except Exception:  # noqa: BLE001
         err_i = True
@@ -191,7 +193,18 @@ def build(P, attrs, name="top", is_async=False, mc=2, built=None, _counter=None,
     fns = share if share is not None else {}
     fname_prefix = "f" if share is not None else name
 
-    def fn_for(fname, setup=False, unpack=0):
+    def fn_for(fname, setup=False, unpack=0, debug=False):
+        if debug:
+            if ("g", fname) not in fns:
+                gfn = PLAIN[fname]
+
+                def gwrapper(*a, **kw):
+                    if PRE_HOOK is not None:
+                        PRE_HOOK()
+                    return gfn(*a, **kw)
+                gwrapper.__qualname__ = gwrapper.__name__ = f"{fname_prefix}_{fname}_debug"
+                fns[("g", fname)] = xn(gwrapper, debug=True, **attrs(f"{fname_prefix}_{fname}_debug"))
+            return fns[("g", fname)]
         if unpack:
             # unpack_to declared where the function is decorated (@xn(unpack_to=n)) instead of where it is called
             if ("u", fname, unpack) not in fns:
@@ -253,7 +266,7 @@ def build(P, attrs, name="top", is_async=False, mc=2, built=None, _counter=None,
                     declared = s["unpack"] and s.get("declunpack") and not s.get("setup")
                     if s["unpack"] and not declared:
                         extra["twz_unpack_to"] = s["unpack"]
-                    v = fn_for(s["fn"], s.get("setup", False), s["unpack"] if declared else 0)(*pos, **kws, **extra)
+                    v = fn_for(s["fn"], s.get("setup", False), s["unpack"] if declared else 0, bool(s.get("debug")))(*pos, **kws, **extra)
                 elif s["kind"] == "op":
                     v = (AUG if s.get("aug") else OPS)[s["fn"]](*pos)     # a op= b for some sites
                 else:
@@ -308,9 +321,11 @@ def errclass(e):
     return type(e).__name__
 
 
-def run_real(d, flat, given, is_async):
+def run_real(d, flat, given, is_async, dbg=False):
     """Call the real DAG; returns the observation (value or error class, executed site paths)."""
-    from tawazi import _verif
+    from tawazi import _verif, cfg as twz_cfg
+
+    twz_cfg.RUN_DEBUG_NODES = bool(dbg)
 
     rec = Recorder()
     _verif.sink = rec
@@ -325,6 +340,7 @@ def run_real(d, flat, given, is_async):
         obs["msg"] = str(e)[:200]
     finally:
         _verif.sink = None
+        twz_cfg.RUN_DEBUG_NODES = False
     id2path = {}
     for path, iid in flat:
         id2path.setdefault(iid, path)
@@ -343,7 +359,7 @@ def run_real(d, flat, given, is_async):
     return obs
 
 
-def run_real_turn(d, flat, givens, setup_paths):
+def run_real_turn(d, flat, givens, setup_paths, dbg=False):
     """AsyncDAG only: the coroutines of all the calls are created first, then awaited one after the other in one loop -
     the meaning is that of calls made one after the other.  Returns (observation, setup paths held before the call) list."""
     from tawazi import _verif
@@ -386,5 +402,10 @@ def run_real_turn(d, flat, givens, setup_paths):
             if obs["val"] is None:
                 obs["val"] = {"k": "err", "i": 0, "s": [], "x": "", "ks": []}
             out.append((obs, pre))
-    asyncio.run(main())
+    from tawazi import cfg as twz_cfg
+    twz_cfg.RUN_DEBUG_NODES = bool(dbg)
+    try:
+        asyncio.run(main())
+    finally:
+        twz_cfg.RUN_DEBUG_NODES = False
     return out
